@@ -370,4 +370,7 @@ def baseCores : List Core :=
     [ResFile.absent, .trunc, .complete ⟨false, true⟩, .complete ⟨true, false⟩].map fun r =>
       { Core.fresh with dir := d, result := r }
 
+/-- positions of a skeleton -/
+def positions (p : Prog) : List Nat := List.range p.size
+
 end PydraModel.JobProto
